@@ -1767,20 +1767,30 @@ def do_multi_lookup_case(req):
     inv = {v: k for k, v in codes.items()}
     name, n, tid = req['decoder'], req['n'], 5
     paths = ['/dir%d/file%d' % (i, i) for i in range(n)]
-    p = TracesParser(codes, {}, {})
-    evs = [_ev_raw(inv[name], tid, 1, bytes(32))]
-    for i, pth in enumerate(paths):
-        for q, data in S.enc_lookup(100 + i, pth):
-            evs.append(_ev_raw(inv['VFS_LOOKUP'], tid, q, data))
-    evs.append(_ev_raw(inv[name], tid, 2, bytes(32)))
+    import struct
     out = None
-    try:
-        for e in evs:
-            r = p.feed(e)
-            if r is not None and type(r).__name__ != 'VfsLookup':
-                out = str(r)
-    except BaseException as ex:  # noqa
-        return {'violates': True, 'what': '%s with %d lookups in its window raised %s: %s' % (name, n, type(ex).__name__, ex)}
+    # argument words: the first choice every enum parameter of the decoder accepts (a word outside the range a decoder names
+    # is not an input the property speaks about)
+    for word in (0, 1, 2, 4):
+        p = TracesParser(codes, {}, {})
+        evs = [_ev_raw(inv[name], tid, 1, struct.pack('<QQQQ', word, word, word, word))]
+        for i, pth in enumerate(paths):
+            for q, data in S.enc_lookup(100 + i, pth):
+                evs.append(_ev_raw(inv['VFS_LOOKUP'], tid, q, data))
+        evs.append(_ev_raw(inv[name], tid, 2, bytes(32)))
+        out = None
+        try:
+            for e in evs:
+                r = p.feed(e)
+                if r is not None and type(r).__name__ != 'VfsLookup':
+                    out = str(r)
+            break
+        except ValueError as ex:
+            if ' is not a valid ' in str(ex):
+                continue
+            return {'violates': True, 'what': '%s with %d lookups in its window raised %s: %s' % (name, n, type(ex).__name__, ex)}
+        except BaseException as ex:  # noqa
+            return {'violates': True, 'what': '%s with %d lookups in its window raised %s: %s' % (name, n, type(ex).__name__, ex)}
     if out is None:
         return {'violates': False, 'note': 'no trace'}
     shown = [q for q in re.findall(r'"([^"]*)"', out) if q in paths]
@@ -2261,9 +2271,10 @@ def do_arg_fidelity_search(req):
             if ch == ')' and depth == 0:
                 return text[:i + 1], text
         return text, text
+    import re
     for name in req['decoders']:
-        if name not in inv:
-            continue
+        if name not in inv or not (name.startswith('BSC_') or name.startswith('MSC_')):
+            continue            # the property speaks about system calls and Mach traps rendered as name(p0, p1, ...)
         for sv in starts:
             parts = []
             for ev in ends:
@@ -2272,7 +2283,7 @@ def do_arg_fidelity_search(req):
                     parts.append(call_part(name, sv, ev))
                 except BaseException:  # noqa
                     parts.append((None, None))
-            seen = [p for p in parts if p[0] is not None]
+            seen = [p for p in parts if p[0] is not None and re.match(r'^\w+\(', p[1] or '')]
             if len(set(p[0] for p in seen)) > 1:
                 return {'tried': tried, 'found': {'violates': True, 'request': {'kind': 'arg_fidelity_search', 'decoders': [name]},
                                                   'what': '%s: with the same START record %r the call part depends on the END record: %r' % (
